@@ -32,7 +32,7 @@ ANCHORS = [(_BD, "BaseDiscretizer._prepare_data"), (_BD, "BaseDiscretizer.fit"),
 DECIDING_ANCHORS = [(_BD, "BaseDiscretizer._prepare_data")]
 EXHAUSTIVE = {"quick": True, "thorough": True}
 EXHAUSTIVE_NOTE = "the (defect x class x state) grid is enumerated completely; the samples inside each cell are random"
-SAMPLES = {"quick": 3, "thorough": 40}
+SAMPLES = {"quick": 5, "thorough": 40}
 REQUIRED_COUNTERS = {"quick": {"malformed_calls": 400, "snapshots_compared": 150}, "thorough": {"malformed_calls": 6000, "snapshots_compared": 2000}}
 
 
@@ -170,8 +170,10 @@ def inject(rng, defect, cls, X, y, Xd, yd, kind):
         r["transform_sees"] = True
     elif defect == "wrong_classes":
         if cls == "BinaryCarver":
-            variant = gen.pick(rng, ["three", "not01", "continuous"])
-            if variant == "three":
+            variant = gen.pick(rng, ["three", "not01", "continuous", "single_one", "single_zero"])
+            if variant in ("single_one", "single_zero"):
+                yy = pd.Series(np.full(n, 1 if variant == "single_one" else 0), index=y.index)
+            elif variant == "three":
                 yy = y.copy()
                 yy.iloc[rng.choice(n, 5, replace=False)] = 2
             elif variant == "not01":
@@ -186,10 +188,18 @@ def inject(rng, defect, cls, X, y, Xd, yd, kind):
         else:
             yy = pd.Series((rng.random(n) < 0.5).astype(int), index=y.index)
             yy.iloc[0], yy.iloc[1] = 0, 1
+            if rng.random() < 0.3:
+                yy = pd.Series(np.full(n, 2), index=y.index)  # a single class
             r["y"] = yy
     elif defect == "y_index_same_len":
         yy = y.copy()
-        yy.index = pd.Index(np.arange(n) + 100000)
+        if rng.random() < 0.5:
+            yy.index = pd.Index(np.arange(n) + 100000)  # foreign labels
+        else:
+            perm = rng.permutation(n)  # the same labels in another order (y was shuffled, not re-indexed)
+            while (perm == np.arange(n)).all():
+                perm = rng.permutation(n)
+            yy = pd.Series(y.values, index=y.index[perm])
         r["y"] = yy
         r["transform_sees"] = True
     elif defect == "y_index_shorter":
